@@ -37,6 +37,7 @@ typedef struct {
 	_Atomic int invocations, in_handler, cancel_handler_runs, activated, activate_done, cancelled_by_harness, released;
 	_Atomic uint64_t merged_sum, merged_or, delivered_sum, delivered_or, last_delivered;
 	_Atomic int sentinel_seen;
+	_Atomic int far;
 	_Atomic int epoch;          // bumped (and woken) after every event-handler invocation and after a cancel issued from the registration handler
 	_Atomic long bytes_written, bytes_read;
 } src_t;
@@ -46,6 +47,7 @@ static struct { _Atomic int state; int src; } TOK[MAXTOK];
 static int ntok_max = -1;
 static _Atomic int pending, all_done;
 #define SENTINEL 0x5e471e1ull
+#define FAR_NS 1000000000000l
 
 static clockid_t clk_of(int c) { return c == 1 ? CLOCK_REALTIME : c == 2 ? CLOCK_BOOTTIME : CLOCK_MONOTONIC; }
 static dispatch_time_t base_of(int c) { return c == 1 ? DISPATCH_WALLTIME_NOW : c == 2 ? (1ull << 63) : DISPATCH_TIME_NOW; }
@@ -63,6 +65,7 @@ static int fd_monitored(int fd) {
 }
 
 static void do_settimer(src_t *s, int sid, int opid, long start_off, long interval, long leeway) {
+	atomic_store(&s->far, start_off >= FAR_NS);      // a start beyond any observation window: the harness does not wait for this timer (unless it is re-set)
 	uint64_t t0 = clock_ns(clk_of(s->clock));        // read BEFORE the deadline is computed: the real start is >= t0 + start_off
 	dispatch_time_t st = dispatch_time(base_of(s->clock), start_off);
 	logev(EV_VAL, opid, 100 + sid, (int64_t)(t0 + (uint64_t)start_off));
@@ -303,7 +306,9 @@ static _Atomic int start_flag;
 static void *client(void *arg) {
 	long t = (long)arg; my_tid = (uint32_t)t;
 	flag_wait(&start_flag);
+	int sk = sig_register();
 	for (int i = 0; i < CTX[t].n; i++) exec_op(CTX[t].ops[i]);
+	sig_unregister(sk);
 	logev(EV_THREAD_DONE, -1, (int32_t)t, 0);
 	return NULL;
 }
@@ -312,9 +317,11 @@ static void *coordinator(void *arg) {
 	(void)arg; my_tid = 63;
 	pthread_t th[MAXTHR], jt;
 	pthread_create(&jt, 0, janitor, 0);
+	pthread_t pinger; if (P.sig_interval_us > 0) pthread_create(&pinger, 0, sig_pinger, 0);
 	for (long i = 0; i < nthreads; i++) pthread_create(&th[i], 0, client, (void *)i);
 	flag_set(&start_flag);
 	for (int i = 0; i < nthreads; i++) pthread_join(th[i], 0);
+	if (P.sig_interval_us > 0) { atomic_store(&sig_stop, 1); pthread_join(pinger, 0); logev(EV_NOTE, -1, 77, atomic_load(&sig_sent)); }
 	// discharge whatever obligations the scripts did not reach
 	for (int t = 0; t <= ntok_max; t++) if (atomic_load(&TOK[t].state) == TK_CREATED && tok_claim(t)) { logev(EV_JCALL, -1, t, K_RESUME); dispatch_resume(SRC[TOK[t].src].ds); logev(EV_JRET, -1, t, K_RESUME); }
 	for (int i = 0; i < MAXSRC; i++) if (SRC[i].used) { int e = 0; if (atomic_compare_exchange_strong(&SRC[i].activated, &e, 1)) { logev(EV_JCALL, -1, i, K_ACTIVATE); dispatch_activate(SRC[i].ds); atomic_store(&SRC[i].activate_done, 1); logev(EV_JRET, -1, i, K_ACTIVATE); } }
@@ -336,7 +343,7 @@ static void *coordinator(void *arg) {
 	// each such timer has fired once; a timer that never fires leaves the process idle with its deadline long past (stuck witness, S4)
 	int any_timer = 0; for (int i = 0; i < MAXSRC; i++) if (SRC[i].used && SRC[i].type == T_TIMER) any_timer = 1;
 	if (any_timer) { atomic_store(&S->future_stimulus, 1); struct timespec ts = { horizon_ms / 1000, (horizon_ms % 1000) * 1000000 }; nanosleep(&ts, 0); atomic_store(&S->future_stimulus, 0); }
-	for (int i = 0; i < MAXSRC; i++) if (SRC[i].used && SRC[i].type == T_TIMER && !dispatch_source_testcancel(SRC[i].ds)) {
+	for (int i = 0; i < MAXSRC; i++) if (SRC[i].used && SRC[i].type == T_TIMER && !dispatch_source_testcancel(SRC[i].ds) && !atomic_load(&SRC[i].far)) {
 		for (;;) { int v = atomic_load(&SRC[i].epoch); if (atomic_load(&SRC[i].invocations) >= 1 || dispatch_source_testcancel(SRC[i].ds)) break; logev(EV_NOTE, i, 2, 0); fwait(&SRC[i].epoch, v); }
 	}
 	logev(EV_NOTE, -1, 1, 0);             // end of the observation window
